@@ -239,11 +239,11 @@ func c17Split(r *Run) {
 		}
 		nSucc++
 		k, ok := upperBoundOnPath(p, fieldOfHdr("deviceID"))
-		r.Check(ok && k <= 0x7FFF, rule, "splitBody succeeds only for device id ≤ 0x7FFF", p.Exit.Pos(), "bounded", "a device id that does not fit the 15-bit field must be rejected (it would spill into the R-bit)")
+		r.Check(ok && k == 0x7FFF, rule, "splitBody succeeds exactly for device id ≤ 0x7FFF", p.Exit.Pos(), "bound = 0x7FFF", fmt.Sprintf("a device id that does not fit the 15-bit field must be rejected (it would spill into the R-bit) and every one that fits accepted; the guards admit ≤ %d", k))
 		k, ok = upperBoundOnPath(p, fieldOfHdr("stream"))
-		r.Check(ok && k <= 0x7F, rule, "splitBody succeeds only for stream ≤ 127", p.Exit.Pos(), "bounded", "a stream above 127 must be rejected (it would spill into the W-bit)")
+		r.Check(ok && k == 0x7F, rule, "splitBody succeeds exactly for stream ≤ 127", p.Exit.Pos(), "bound = 127", fmt.Sprintf("a stream above 127 must be rejected (it would spill into the W-bit) and every stream up to 127 accepted; the guards admit ≤ %d", k))
 		k, ok = upperBoundOnPath(p, func(v ssa.Value) bool { return isLenOfBody(p.ResolveLocalLoad(v)) || isLenOfBody(v) })
-		r.Check(ok && k <= maxBody*maxNum, rule, "splitBody succeeds only for bodies ≤ 244·32767 bytes", p.Exit.Pos(), "bounded", "a body that needs more than 32767 blocks must be rejected (the block number would overflow into the E-bit)")
+		r.Check(ok && k == maxBody*maxNum, rule, "splitBody succeeds exactly for bodies ≤ 244·32767 bytes", p.Exit.Pos(), "bound = 244·32767", fmt.Sprintf("a body that needs more than 32767 blocks must be rejected (the block number would overflow into the E-bit) and every smaller one accepted; the guards admit ≤ %d", k))
 	}
 	r.Floor(rule, "splitBody success paths", nSucc, 1)
 
